@@ -6,7 +6,15 @@ then every single edit of it (drop / add / rename a documented parameter, change
 depth, drop / add / alter / untype the Returns entry, untype a parameter), equivalent respellings, and a malformed
 stream.  Decoration is performed by importing a generated module from the run's scratch directory (harness/w_docstring.py).
 The model and the specification (Spec/DocstringSpec.v: consistentb) are evaluated inside Coq on the *parsed* docstring as
-docstring_parser returns it and on the reified annotations.  Stream `typing`: the model of typing (eval of documented
+docstring_parser returns it and on the reified annotations.
+Layout `inherit` of the same stream (gen_inherit_cases): a chain of classes B <- (M <-) K; methods of K override documented /
+undocumented methods of B with the same or a changed signature and have a faithful docstring of their own / none / an empty
+one / the base's docstring kept verbatim / a single edit of their own; K (sometimes B too) is decorated by
+pedantic_class_require_docstring, pedantic_require_docstring, pedantic(require_docstring=True) or plain pedantic, every
+variant once in DECORATOR form and once in CALL form (the decorator applied after the class object exists: to the class, to
+K.m, K.__dict__['m'] or the bound K().m, result rebound or dropped).  The whole chain (every class, all own methods with
+their own __doc__) is handed to Model/DocstringClass.v, which selects the functions a decoration reaches; judged by the
+specification on the override's OWN signature and OWN docstring (a docstring inherited from the base is not a docstring).  Stream `typing`: the model of typing (eval of documented
 type expressions, ==, _update_context) against CPython on random type expressions."""
 import ast, json
 from lib import *
@@ -15,7 +23,7 @@ UNITS = ['Docstring']
 MODEL = ['Model/DocstringEval.vo']
 PROPS = 'Props/C19.v'
 PRE = ('From Coq Require Import List ZArith Bool String.\n'
-       'From PV Require Import Base.Exn Model.DocstringTyping Model.Docstring Spec.DocstringSpec Model.DocstringEval.\n'
+       'From PV Require Import Base.Exn Model.DocstringTyping Model.Docstring Model.DocstringClass Spec.DocstringSpec Model.DocstringEval.\n'
        'Import ListNotations.\nOpen Scope string_scope.\nOpen Scope list_scope.')
 
 PDOC = [1, 0, 0, 1]
@@ -383,12 +391,46 @@ HEAD_TWIN = ('from typing import *\n'
 DECO = {'require': ['@pedantic_require_docstring'], 'pedantic': ['@pedantic'], 'kw': ['@pedantic(require_docstring=True)']}
 
 
+CALL = {'require': 'pedantic_require_docstring({x})', 'pedantic': 'pedantic({x})', 'kw': 'pedantic(require_docstring=True)({x})'}
+CALL_KW = {'require': 'pedantic_require_docstring(func={x})', 'pedantic': 'pedantic(func={x})', 'kw': 'pedantic({x}, require_docstring=True)'}
+
+
+def render_inherit_body(c):
+    """layout `inherit`: a chain of classes, the last ones decorated - in decorator form, or in call form once the class exists.
+    c['classes']: [{'name', 'base', 'decorated', 'form', 'methods'}] in definition order; the methods of a decorated class are
+    the entries of c['funcs'] it owns (c['funcs'] is the decoration order), those of a plain class are in 'methods'."""
+    mode = c['mode']
+    out, calls = [], []
+    for k in c['classes']:
+        ms = [f for f in c['funcs'] if f['owner'] == k['name']] if k['decorated'] else k['methods']
+        body = [f for f in ms if not f.get('inherited')]
+        deco_form = k['decorated'] and k['form'] == 'deco'
+        if deco_form and mode == 'class':
+            out.append('@pedantic_class_require_docstring')
+        out.append(f'class {k["name"]}' + (f'({k["base"]})' if k['base'] else '') + ':')
+        fdeco = DECO[mode] if deco_form and mode != 'class' else []
+        out.append('\n\n'.join(render_func(f, fdeco, '    ') for f in body) if body else '    pass')
+        out.append('')
+        if k['decorated'] and k['form'] == 'call':
+            n = k['name']
+            if mode == 'class':
+                calls.append((f'{n} = ' if c.get('rebind', True) else '') + f'pedantic_class_require_docstring({n})')
+            else:
+                for f in ms:
+                    x = {'cls': f'{n}.{f["name"]}', 'dict': f'{n}.__dict__[{f["name"]!r}]', 'inst': f'{n}().{f["name"]}'}[c.get('via', 'cls')]
+                    stmt = (CALL_KW if c.get('kwstyle') else CALL)[mode].format(x=x)
+                    calls.append((f'{n}.{f["name"]} = ' if c.get('rebind', True) and c.get('via', 'cls') != 'inst' else '') + stmt)
+    return '\n'.join(out + calls) + '\n'
+
+
 def render_case(c):
     _RC['alias'] = dict(c.get('alias') or {})
     try:
         names = [_RC['alias'].get(u, u) for u in USER]
         body = ''.join(f'class {u}:\n    pass\n\n' for u in names)
-        if c['mode'] == 'class':
+        if c.get('layout') == 'inherit':
+            body += render_inherit_body(c)
+        elif c['mode'] == 'class':
             body += '@pedantic_class_require_docstring\nclass ' + c['cls_name'] + ':\n'
             body += '\n\n'.join(render_func(f, [], '    ') for f in c['funcs']) + '\n'
         else:
@@ -518,6 +560,140 @@ def gen_cases(rng, tier, scale):
             fs = [dict(g) for g in funcs]
             fs[k] = dict(funcs[k], doc=dc)
             cases.append(dict(base, kind=kd, funcs=fs, expect=ex, depth=dep, sub=sub, edited=k))
+    for c in cases:
+        render_case(c)
+    return cases
+
+
+# ------------------------------------------------------------------------------------------------
+# layout `inherit`: methods of subclasses that override (documented / undocumented) methods of a base class, decorated in
+# decorator form and in call form (after the class object exists).  The docstring of a function is ITS OWN __doc__: what a
+# base class documents for a method of the same name is not the docstring of the override.
+def faithful_doc(rng, params, ret):
+    dps = [[p['name'], respell(rng, p['ann']) if rng.random() < 0.3 else p['ann']] for p in params]
+    if rng.random() < 0.3:
+        rng.shuffle(dps)
+    return {'raw': 'text', 'params': dps, 'returns': None if ret in ('absent', 'none') else [ret]}
+
+
+def vary_signature(rng, f, how):
+    """a signature for an override of f: the same one, or f's with one change -> (params, ret)"""
+    ps = [dict(p) for p in f['params']]
+    ret = f['ret']
+    if how == 'retype' and not ps:
+        how = 'add'
+    if how in ('rename', 'drop') and not ps:
+        how = 'ret'
+    if how == 'rename':
+        i = rng.randrange(len(ps))
+        ps[i]['name'] = fresh_name(rng, [p['name'] for p in ps])
+    elif how == 'retype':
+        i = rng.randrange(len(ps))
+        for _ in range(8):
+            t = gen_type(rng, rng.choice([0, 1, 2]))
+            if rt(t) != rt(ps[i]['ann']):
+                break
+        else:
+            t = ('n', 'bytes') if rt(ps[i]['ann']) != 'bytes' else ('n', 'int')
+        ps[i]['ann'] = t
+    elif how == 'add':
+        ps.insert(0, {'name': fresh_name(rng, [p['name'] for p in ps]), 'kind': 'pos', 'ann': gen_type(rng, 1), 'default': False})
+    elif how == 'drop':
+        i = rng.randrange(len(ps))
+        del ps[i]
+    elif how == 'ret':
+        ret = gen_type(rng, 1) if ret in ('absent', 'none') else 'none'
+    return ps, ret
+
+
+def gen_inherit_cases(rng, tier, scale):
+    cases = []
+    n_fam = int((18 if tier == 'quick' else 300) * scale)
+    for s in range(n_fam):
+        r = rng.random()
+        mode = 'class' if r < 0.4 else 'require' if r < 0.65 else 'kw' if r < 0.8 else 'pedantic'
+        small = rng.random() < 0.3          # a minimal family: one method with at most one parameter, nothing else in the classes
+        names = rng.sample(['run', 'get', 'put', 'make'], 1 if small else rng.choice([1, 2, 2, 3]))
+        base_funcs = [dict(gen_func(rng, nm, tier, method=True), owner='B') for nm in names]
+        for _ in range(12):
+            if not small or len(base_funcs[0]['params']) <= 1:
+                break
+            base_funcs = [dict(gen_func(rng, names[0], tier, method=True), owner='B')]
+        tname = rng.choice(names)
+        bt = next(f for f in base_funcs if f['name'] == tname)       # the base method the target override overrides
+        # a class between the base and the decorated class: empty, or overriding the target without a docstring (plain)
+        middle = None
+        if rng.random() < 0.3 and not small:
+            ms = []
+            if rng.random() < 0.5:
+                ms = [dict(bt, owner='M', doc={'raw': 'none', 'params': [], 'returns': None})]
+            middle = {'name': 'M', 'base': 'B', 'decorated': False, 'form': 'deco', 'methods': ms}
+        # the other methods of the decorated class: overrides of the remaining base methods and new methods, faithfully documented
+        others = []
+        for f in base_funcs:
+            if f['name'] != tname and rng.random() < 0.5:
+                ps, ret = vary_signature(rng, f, rng.choice(['same', 'same', 'rename', 'retype', 'add', 'drop', 'ret']))
+                others.append(dict(f, owner='K', params=ps, ret=ret, doc=faithful_doc(rng, ps, ret)))
+        if rng.random() < 0.3 and not small:
+            others.append(dict(gen_func(rng, 'extra', tier, method=True), owner='K'))
+        pos = rng.randrange(len(others) + 1)
+        how = rng.choice(['rename', 'retype', 'add', 'drop', 'ret'])
+        vps, vret = vary_signature(rng, bt, how)
+        nodoc = {'raw': 'none', 'params': [], 'returns': None}
+        same = dict(bt, owner='K')
+        varied = dict(bt, owner='K', params=vps, ret=vret, doc=faithful_doc(rng, vps, vret))
+        # (kind, target override, expectation, documentation of the base method or None = as generated)
+        variants = [('consistent_override_same_signature', dict(same, doc=faithful_doc(rng, bt['params'], bt['ret'])), 'ok', None),
+                    ('consistent_override_' + how, varied, 'ok', None),
+                    ('override_without_docstring', dict(same, doc=nodoc), 'by-mode', None),
+                    ('override_without_docstring_' + how, dict(varied, doc=nodoc), 'by-mode', None),
+                    ('override_keeps_base_docstring_' + how, dict(varied, doc=dict(bt['doc'])), 'oracle', None),
+                    ('consistent_override_base_undocumented', dict(same, doc=faithful_doc(rng, bt['params'], bt['ret'])), 'ok', nodoc),
+                    ('override_without_docstring_base_undocumented', dict(same, doc=nodoc), 'by-mode', nodoc)]
+        tgt = rng.choice([same, varied])
+        eds = edits_of(rng, tgt, tier)
+        for kd, dc, ex, dep in rng.sample(eds, min(2, len(eds))):
+            variants.append(('override_' + kd, dict(tgt, doc=dc), ex, None))
+        if rng.random() < 0.5:
+            variants.append(('override_empty_docstring', dict(same, doc={'raw': 'empty', 'params': [], 'returns': None}), 'by-mode', None))
+        base_decorated = mode == 'class' and rng.random() < 0.3
+        via = rng.choice(['cls', 'cls', 'dict', 'inst'])
+        kwstyle = rng.random() < 0.3
+        rebind = rng.random() < 0.7
+        for kd, target, ex, bdoc in variants:
+            if rng.random() < 0.5:       # the spelling of the call form varies inside a family too
+                via, kwstyle, rebind = rng.choice(['cls', 'cls', 'dict', 'inst']), rng.random() < 0.3, rng.random() < 0.7
+            kfuncs = others[:pos] + [target] + others[pos:]
+            bfs = [dict(f, doc=bdoc) if (bdoc is not None and f['name'] == tname) else f for f in base_funcs]
+            bdec = base_decorated and bdoc is None
+            classes = [{'name': 'B', 'base': None, 'decorated': bdec, 'form': 'deco', 'methods': None if bdec else bfs}]
+            if middle:
+                classes.append(middle)
+            for form in ('deco', 'call'):
+                cl = classes + [{'name': 'K', 'base': 'M' if middle else 'B', 'decorated': True, 'form': form, 'methods': None}]
+                funcs = (bfs if bdec else []) + kfuncs
+                c = {'stream': 'docstring', 'layout': 'inherit', 'mode': mode, 'form': form, 'kind': kd, 'via': via, 'kwstyle': kwstyle,
+                     'rebind': rebind, 'cls_name': 'K', 'sig': s, 'expect': ex, 'depth': 0, 'sub': 'inherit',
+                     'edited': (len(bfs) if bdec else 0) + pos, 'classes': cl, 'funcs': funcs}
+                cases.append(c)
+        # an attribute K only INHERITS (defined in the plain base B, documented or not), K's own methods faithfully documented:
+        #   class decorator - reaches the own dict of K only (for_all_methods: `for attr in cls.__dict__`); whether an undocumented
+        #     method K merely inherits should count against K is not something the property states: compared with the model only
+        #   function decorator in call form on K.aux - the function object getattr finds is B's, judged with its own docstring
+        aux = dict(gen_func(rng, 'aux', tier, method=True), owner='B')
+        kown = others[:pos] + [dict(same, doc=faithful_doc(rng, bt['params'], bt['ret']))] + others[pos:]
+        for documented in (True, False):
+            a = aux if documented else dict(aux, doc=nodoc)
+            cl = [{'name': 'B', 'base': None, 'decorated': False, 'form': 'deco', 'methods': base_funcs + [a]}] + ([middle] if middle else [])
+            cl = cl + [{'name': 'K', 'base': 'M' if middle else 'B', 'decorated': True, 'form': 'call' if mode != 'class' else rng.choice(['deco', 'call']),
+                        'methods': None}]
+            c = {'stream': 'docstring', 'layout': 'inherit', 'mode': mode, 'form': cl[-1]['form'],
+                 'kind': 'inherited_attribute_' + ('documented' if documented else 'undocumented'), 'via': 'inst' if via == 'inst' else 'cls',
+                 'kwstyle': kwstyle, 'rebind': rebind, 'cls_name': 'K', 'sig': s, 'expect': 'by-mode', 'depth': 0, 'sub': 'inherit',
+                 'edited': len(kown) if mode != 'class' else 0, 'classes': cl, 'funcs': kown + ([dict(a, owner='K', inherited=True)] if mode != 'class' else [])}
+            if mode == 'class' and not documented:
+                c['corr_only'] = True
+            cases.append(c)
     for c in cases:
         render_case(c)
     return cases
@@ -654,7 +830,39 @@ def cfcase(require, fn):
             f'f_doc := {{| d_raw := {raw}; d_params := {ps}; d_returns := {rs} |}} |}}')
 
 
+def cdoc(d):
+    raw = {'none': 'RawNone', 'empty': 'RawEmpty', 'text': 'RawText'}[d['raw']]
+    ps = coq_list([f'({cstr(n)}, {"None" if t is None else "Some " + cdtype(t)})' for n, t in d['params']])
+    rs = 'None' if d['returns'] is None else f'(Some {coq_list([cdtype(t) for t in d["returns"]])})'
+    return f'{{| d_raw := {raw}; d_params := {ps}; d_returns := {rs} |}}'
+
+
+def cklass(chain, name):
+    k = next(x for x in chain if x['name'] == name)
+    ms = [f'{{| m_name := {cstr(m["name"])}; m_ann := {coq_list([f"({cstr(a)}, {cty(v)})" for a, v in m["ann"]])}; m_doc := {cdoc(m["doc"])} |}}'
+          for m in k['methods']]
+    return f'(Klass {coq_list(ms)} {"None" if not k["base"] else "(Some " + cklass(chain, k["base"]) + ")"})'
+
+
+def coq_chain_case(c, impl):
+    """layout `inherit`: the whole chain of classes goes to the model, which selects the decorated functions itself"""
+    ds = []
+    for k in c['classes']:
+        if k['decorated']:
+            how = 'None' if c['mode'] == 'class' else f'(Some {coq_list([cstr(f["name"]) for f in c["funcs"] if f["owner"] == k["name"]])})'
+            ds.append(f'({cklass(impl["chain"], k["name"])}, {how})')
+    return (f'eval_chain_case {coq_list([cstr(u) for u in (c.get("scope_names") or USER + ["NoneType"])])} '
+            f'{coq_bool(c["mode"] != "pedantic")} {coq_list(ds)}')
+
+
 def coq_docstring_case(c, impl):
+    if c.get('layout') == 'inherit':
+        try:
+            return coq_chain_case(c, impl)
+        except OutOfFragment:
+            raise
+        except Exception as ex:
+            raise OutOfFragment('chain of classes not reified: ' + repr(ex)[:80])
     require = c['mode'] != 'pedantic'
     return f'eval_case {coq_list([cstr(u) for u in (c.get("scope_names") or USER + ["NoneType"])])} {coq_list([cfcase(require, fn) for fn in impl["funcs"]])}'
 
@@ -733,6 +941,8 @@ def judge_docstring(c, impl, model):
         if e == 'pdoc':
             demanded = 'pdoc'
             break
+    if c.get('corr_only'):
+        demanded = None      # the property does not say what is demanded here: implementation against model only
     if demanded is not None:
         want = OK if demanded == 'ok' else PDOC
         if impl['outcome'] != want:
@@ -740,10 +950,17 @@ def judge_docstring(c, impl, model):
             if demanded == 'ok':
                 viol = f'decoration of a function whose docstring is consistent with its signature (or to which the check does not apply) raised {got}: {impl["msg"]}'
             else:
-                viol = f'docstring inconsistent with the signature ({c["kind"]}): decoration raised {got} instead of PedanticDocstringException'
+                k = min(len(exps), len(impl['funcs'])) - 1
+                k = next((j for j, e in enumerate(exps) if e == 'pdoc'), k)
+                where = c['kind'] + (f', {c["mode"]} in {"call" if c.get("form") == "call" else "decorator"} form' if c.get('layout') == 'inherit' else '')
+                if impl['funcs'][k]['doc']['raw'] != 'text' and c['mode'] != 'pedantic':
+                    viol = (f'a docstring is required and function {impl["funcs"][k]["name"]} has none of its own ({where}): '
+                            f'decoration raised {got} instead of PedanticDocstringException')
+                else:
+                    viol = f'docstring inconsistent with the signature ({where}): decoration raised {got} instead of PedanticDocstringException'
     # self checks of the generator
     gen = None
-    edited = mf[c.get('edited', 0)]['flags'] if c['stream'] == 'docstring' and mf else None
+    edited = mf[c.get('edited', 0)]['flags'] if c['stream'] == 'docstring' and mf and 0 <= c.get('edited', 0) < len(mf) else None
     if c.get('expect') == 'ok' and c['kind'].startswith('consistent') and not c.get('alias') and not all(f['consistent'] for f in flags):
         gen = 'a case generated as consistent is not consistent according to the specification'
     if c.get('expect') == 'pdoc' and not c.get('alias') and edited and edited['consistent']:
@@ -871,10 +1088,12 @@ def run(tier, seed, replay=None):
     else:
         cases = gen_cases(ck.rng, tier, ck.scale())
         tcases = gen_typing_cases(ck.rng, tier, ck.scale())
+        cases += gen_inherit_cases(ck.rng, tier, ck.scale())
 
     # ---- stream docstring
     impl, model, frag = evaluate(cases) if cases else ([], [], [])
-    hist = {'kind': {}, 'mode': {}, 'outcome': {}, 'demanded': {}, 'params': {}, 'edit_depth': {}, 'sub': {}, 'hiding_classes': {}}
+    hist = {'kind': {}, 'mode': {}, 'outcome': {}, 'demanded': {}, 'params': {}, 'edit_depth': {}, 'sub': {}, 'hiding_classes': {},
+            'layout': {}, 'inherit_form': {}, 'inherit_demanded': {}}
     disagreements, gen_problems, roundtrip, out_of_fragment = [], [], [], 0
 
     def bump(h, k):
@@ -887,6 +1106,10 @@ def run(tier, seed, replay=None):
         key = json.dumps([c['mode'], c['kind'], c['src']])
         ck.note_case(key, nontrivial=(not c['kind'].startswith('consistent') or sum(len(f['params']) for f in c['funcs']) >= 1))
         bump('kind', c['kind']); bump('mode', c['mode']); bump('sub', c.get('sub', 'valid'))
+        bump('layout', c.get('layout', 'flat'))
+        if c.get('layout') == 'inherit':
+            bump('inherit_form', c['mode'] + '/' + c['form'] + ('' if c['form'] == 'deco' or c['mode'] == 'class' else '/' + c.get('via', 'cls')))
+            bump('inherit_demanded', c['kind'].split('_')[0] + ':' + str(st.get('demanded')))
         bump('hiding_classes', ','.join(sorted((c.get('alias') or {}).values())) or '-')
         bump('params', sum(len(f['params']) for f in c['funcs']))
         if c.get('expect') == 'oracle' and c['kind'].startswith(('change_type', 'alter')):
@@ -958,6 +1181,8 @@ def run(tier, seed, replay=None):
     ck.samples = [{'kind': cases[k]['kind'], 'mode': cases[k]['mode'], 'src': cases[k]['src'], 'impl': impl[k], 'model': model[k]} for k in pick]
     ck.assumptions = [
         'class identity is the class name; generated modules define each class once',
+        'layout inherit: linear chains of module-level classes (one base each); the docstring of a function is its own __doc__ - '
+        'the property speaks of the docstring of the decorated function, not of documentation inherited from a base class',
         'the parsed docstring (docstring_parser.parse) and inspect.getfullargspec(f).annotations are the inputs of the model',
         'documented type texts are turned into expression syntax by Python\'s own ast.parse (what eval compiles)',
         'messages of exceptions are not compared, only classes']
@@ -966,10 +1191,15 @@ def run(tier, seed, replay=None):
              'Tuple[X, ...], user classes) and a consistent Google-style docstring generated together (documented types partly respelled, order '
              'partly shuffled), then each single edit and a malformed stream, decorated by @pedantic_require_docstring / @pedantic / '
              '@pedantic(require_docstring=True) / @pedantic_class_require_docstring; distinct = (mode, kind, module text); non-trivial = an edit, '
-             'or a consistent case with at least one parameter. Typing stream: random type expression pairs',
+             'or a consistent case with at least one parameter. Layout inherit: class chains B <- (M <-) K whose methods override documented / '
+             'undocumented base methods (same / changed signature; own faithful docstring, none, empty, the base docstring kept, single edits), '
+             'each variant decorated in decorator form and in call form (class object / K.m / K.__dict__[m] / K().m, rebound or not) with the '
+             'four decorators. Typing stream: random type expression pairs',
         checker_cmd='make -C coq Props/C19.vo && coqc -Q coq PV coq/Props/C19.v (Print Assumptions under every theorem)',
         trusted_base=['Coq 8.16.1 kernel (coqc; vm_compute for model evaluation)',
                       'translator/t_docstring.py (Python ast -> Gen/Docstring.v) and the statement semantics Model/Docstring.v',
+                      'Model/DocstringClass.v: which function objects a class / attribute decoration reaches (own dict, linear chain), '
+                      'validated by the inherit layout of the correspondence stream; for_all_methods itself is pinned by a source lock',
                       'Model/DocstringTyping.v: hand-written model of typing objects, ==, eval of documented type expressions (validated by the typing stream only)',
                       'docstring_parser.parse: Google-style text -> (params, returns); the model starts from its result',
                       'harness/w_docstring.py, harness/c19.py: rendering of modules, reification of annotations, ast.parse of documented types',
